@@ -96,6 +96,43 @@ class Gen:
         return self.ss(items)
 
 
+def family(rnd, g):
+    """Targeted shapes for the memo of compared pairs: the same (selection set, fragment) or (fragment, fragment) pair
+    is compared once below mutually exclusive parents and once below non-exclusive parents, in either document
+    order; the conflict between them is by name, by arguments, or by shape."""
+    def F(name, alias="", args=("", ""), sel=None):
+        return {"k": "F", "alias": alias, "name": name, "args": args[0], "text": args[1], "sel": sel if sel is not None else g.ss([])}
+
+    def I(on, items):       # noqa: E743
+        return {"k": "I", "on": on, "sel": g.ss(items)}
+
+    def S(name):
+        return {"k": "S", "name": name}
+    kind = rnd.choice(["name", "args", "shape", "none"])
+    if kind == "name":
+        left, right = F("x", "p"), F("f", "p")
+    elif kind == "args":
+        left, right = F("f", "p", ARGS[1]), F("f", "p", rnd.choice([ARGS[2], ARGS[3], ARGS[0]]))
+    elif kind == "shape":
+        left, right = F("x", "p"), F("i", "p", sel=g.ss([F("x")]))
+    else:
+        left, right = F("x", "p"), F("x", "p")
+    host = rnd.choice(["i", "i", "o"])            # the field inside F and G that carries the two sides
+    via_y = rnd.random() < 0.7
+    frags = {
+        "F": {"on": "I", "sel": g.ss([F(host if host == "i" else "i", sel=g.ss([left]))])},
+        "G": {"on": "I", "sel": g.ss([F(host if host == "i" else "i", sel=g.ss([S("Y")] if via_y else [right]))])},
+    }
+    if via_y:
+        frags["Y"] = {"on": "I", "sel": g.ss([right])}
+    excl = F("i", rnd.choice(["", "e"]), sel=g.ss([I("A", [F("i", sel=g.ss([S("F")]))]), I("B", [F("i", sel=g.ss([S("G")]))])]))
+    nonexcl = F("i", "q", sel=g.ss([S("F"), S("G")]) if rnd.random() < 0.7 else g.ss([I("A", [S("F")]), I("", [S("G")])]))
+    extra = [g.sel("Query", 1, [])["items"][0]] if rnd.random() < 0.3 else []
+    items = [excl, nonexcl] if rnd.random() < 0.5 else [nonexcl, excl]
+    rnd.shuffle(extra)
+    return g.ss(items + extra), frags
+
+
 def render(ss):
     out = []
     for s in ss["items"]:
@@ -125,11 +162,14 @@ def _chunk(seeds):
     for sd in seeds:
         rnd = random.Random(sd)
         g = Gen(rnd)
-        fr = rnd.choice([[], ["F"], ["F", "G"], ["F", "G", "H"]])
-        frags = {name: {"on": rnd.choice(["A", "B", "I", "U", "Query"]), "sel": None} for name in fr}
-        for name in fr:
-            frags[name]["sel"] = g.sel(frags[name]["on"], 2, fr)      # fragments may spread each other and themselves
-        root = g.sel("Query", 3, fr)
+        if sd % 4 == 3:
+            root, frags = family(rnd, g)
+        else:
+            fr = rnd.choice([[], ["F"], ["F", "G"], ["F", "G", "H"]])
+            frags = {name: {"on": rnd.choice(["A", "B", "I", "U", "Query"]), "sel": None} for name in fr}
+            for name in fr:
+                frags[name]["sel"] = g.sel(frags[name]["on"], 2, fr)      # fragments may spread each other and themselves
+            root = g.sel("Query", 3, fr)
         text = "query($v: Int, $w: Int) " + render(root) + " " + " ".join(f"fragment {n_} on {f['on']} {render(f['sel'])}" for n_, f in frags.items())
         rec = {"schema": ABS, "doc": {"root": root, "frags": frags or {"_none": {"on": "Query", "sel": {"id": 0, "items": []}}}}, "_text": text, "_seed": sd}
         signal.alarm(20)
